@@ -1314,11 +1314,11 @@ impl Drop for Cat {
     }
 }
 
-pub fn sweep_changeset(max_len: usize, idxs: &[u32]) -> (Stats, Vec<Fail>) {
+pub fn sweep_changeset(max_len: usize, idxs: &[u32], universe: &[u32]) -> (Stats, Vec<Fail>) {
     let mut stats = Stats::default();
     let mut fails = vec![];
     ledger_reset(None);
-    let ctx = Ctx::new::<CDense, CVec2>(&[0, 1, 63, 64, 65, 66]);
+    let ctx = Ctx::new::<CDense, CVec2>(universe);
     let ents = ctx.w.entities();
     let hs: Vec<Entity> = idxs.iter().map(|i| ctx.live[i]).collect();
     let amounts = ["a", "b"];
@@ -1410,6 +1410,59 @@ pub fn sweep_changeset(max_len: usize, idxs: &[u32]) -> (Stats, Vec<Fail>) {
             if fails.len() > 10 {
                 return (stats, fails);
             }
+        }
+    }
+    (stats, fails)
+}
+
+/// Long sequences (beyond every small-slice special case of sorting / buffering code): for each
+/// length and each periodic entity pattern, every pair carries a token naming its position, so
+/// the per-entity arrival order is fully observable; built by collect, add and extend.
+pub fn sweep_changeset_long() -> (Stats, Vec<Fail>) {
+    let mut stats = Stats::default();
+    let mut fails = vec![];
+    let ctx = Ctx::new::<CDense, CVec2>(&[0, 1, 2, 3]);
+    let ents = ctx.w.entities();
+    let idxs = [0u32, 1, 2, 3];
+    let hs: Vec<Entity> = idxs.iter().map(|i| ctx.live[i]).collect();
+    for len in [21usize, 24, 33, 40, 64] {
+        for (pn, pat) in [
+            |i: usize| i % 3,
+            |i: usize| (i * 2 + 1) % 4,
+            |i: usize| 3 - (i % 4),
+            |i: usize| (i / 2) % 3,
+            |i: usize| if i % 5 == 0 { 0 } else { 1 + i % 3 },
+        ]
+        .iter()
+        .enumerate()
+        {
+            let seq: Vec<(usize, String)> = (0..len).map(|i| (pat(i), format!("t{};", i))).collect();
+            let mut expect: BTreeMap<u32, String> = BTreeMap::new();
+            for (e, a) in &seq {
+                expect.entry(idxs[*e]).or_default().push_str(a);
+            }
+            let want: Vec<(u32, String)> = expect.iter().map(|(k, v)| (*k, v.clone())).collect();
+            let pairs = |from: usize, to: usize| -> Vec<(Entity, Cat)> { seq[from..to].iter().map(|(e, a)| (hs[*e], Cat::new(a))).collect() };
+            let mut builds: Vec<(String, ChangeSet<Cat>)> = vec![];
+            builds.push(("collect".into(), pairs(0, len).into_iter().collect()));
+            let mut cs = ChangeSet::new();
+            for (e, a) in pairs(0, len) {
+                cs.add(e, a);
+            }
+            builds.push(("add".into(), cs));
+            for split in [0, 1, len / 2, len - 1] {
+                let mut cs: ChangeSet<Cat> = pairs(0, split).into_iter().collect();
+                cs.extend(pairs(split, len));
+                builds.push((format!("collect[..{}]+extend", split), cs));
+            }
+            for (mode, cs) in builds {
+                let got: Vec<(u32, String)> = (&ents, &cs).join().map(|(e, c)| (e.id(), c.s.clone())).collect();
+                chk!(fails, "changeset", format!("{} of {} pairs (pattern {}) (&entities,&cs).join", mode, len, pn), vec![len as u32, pn as u32], Vec::<u32>::new(), got, want.clone());
+                let got: Vec<(u32, String)> = (&ents, cs).join().map(|(e, c)| (e.id(), c.s.clone())).collect();
+                chk!(fails, "changeset", format!("{} of {} pairs (pattern {}) (&entities,cs).join", mode, len, pn), vec![len as u32, pn as u32], Vec::<u32>::new(), got, want.clone());
+                stats.joins += 2;
+            }
+            stats.nontrivial += 1;
         }
     }
     (stats, fails)
@@ -1584,8 +1637,17 @@ pub fn main() {
         "C16" => {
             let n = if thorough { 5 } else { 4 };
             jobs.push(Box::new(move || {
-                let (s, fl) = sweep_changeset(n, &[0, 63, 64]);
-                (format!("changeset sequences up to length {}", n), s, fl)
+                let (s, fl) = sweep_changeset(n, &[0, 63, 64], &[0, 1, 63, 64, 65, 66]);
+                (format!("changeset sequences up to length {} over indices 0,63,64", n), s, fl)
+            }));
+            // compact indices: dense slot numbers and entity indices coincide
+            jobs.push(Box::new(move || {
+                let (s, fl) = sweep_changeset(n.min(4), &[0, 1, 2, 3], &[0, 1, 2, 3]);
+                ("changeset sequences up to length 4 over indices 0..3".to_string(), s, fl)
+            }));
+            jobs.push(Box::new(|| {
+                let (s, fl) = sweep_changeset_long();
+                ("long changeset sequences (24..64 pairs, periodic entity patterns)".to_string(), s, fl)
             }));
         }
         p => machinery_error(&format!("mc-join does not serve property {p}")),
